@@ -123,7 +123,7 @@ namespace sim
             p.site_mask = USER_SITES;
          }
       }
-      else if( check == "C07" && ( sub == 1 || sub == 4 ) ) {
+      else if( check == "C07" && sub == 1 ) {
          // fixed grammars through the stock file / stream / string / argv input classes
          j.mode = MODE_IO;
          j.set = static_cast< SetId >( IO_LAZY + r.below( IO_LAST - IO_LAZY + 1 ) );
